@@ -126,7 +126,9 @@ func (s *solver) start() {
 	s.pr = newPrinter()
 	s.named = map[string]*term{}
 	s.send("(set-option :print-success false)")
-	s.send("(set-option :produce-unsat-cores true)")
+	if !noCores {
+		s.send("(set-option :produce-unsat-cores true)")
+	}
 	if s.timeout > 0 && strings.Contains(s.bin[0], "z3") {
 		s.send(fmt.Sprintf("(set-option :timeout %d)", s.timeout.Milliseconds()))
 	}
@@ -157,7 +159,9 @@ func (s *solver) reset() {
 	s.pr = newPrinter()
 	s.named = map[string]*term{}
 	s.send("(set-option :print-success false)")
-	s.send("(set-option :produce-unsat-cores true)")
+	if !noCores {
+		s.send("(set-option :produce-unsat-cores true)")
+	}
 	if s.timeout > 0 && strings.Contains(s.bin[0], "z3") {
 		s.send(fmt.Sprintf("(set-option :timeout %d)", s.timeout.Milliseconds()))
 	}
@@ -183,7 +187,16 @@ func (s *solver) assert(t *term) {
 
 // core returns the path literals of the last unsat answer's core (call right after an
 // unsat check-sat, before pop).
+var noCores = os.Getenv("SYMGO_NOCORES") != ""
+
 func (s *solver) core() []*term {
+	if noCores {
+		var out []*term
+		for _, t := range s.named {
+			out = append(out, t)
+		}
+		return out
+	}
 	s.send("(get-unsat-core)")
 	line := s.readLine()
 	for strings.Count(line, "(") > strings.Count(line, ")") {
@@ -395,7 +408,9 @@ func (s *solver) checkStandalone(cs []*term, q *term) (string, []*term) {
 	s.pr = newPrinter()
 	s.named = map[string]*term{}
 	s.send("(set-option :print-success false)")
-	s.send("(set-option :produce-unsat-cores true)")
+	if !noCores {
+		s.send("(set-option :produce-unsat-cores true)")
+	}
 	if s.timeout > 0 {
 		s.send(fmt.Sprintf("(set-option :timeout %d)", s.timeout.Milliseconds()))
 	}
